@@ -64,6 +64,11 @@ fn category(f: &NetworkFilter) -> &'static str {
 
 /// Rule-by-rule evaluation with the documented precedence (independent of the engine's index).
 fn spec(rules: &[NetworkFilter], tags: &HashSet<String>, req: &Request) -> V {
+    spec_p(rules, tags, req, false, false)
+}
+/// The same for the subset query (check_network_request_subset): `mr` = an earlier engine matched,
+/// `fc` = force_check_exceptions.
+fn spec_p(rules: &[NetworkFilter], tags: &HashSet<String>, req: &Request, mr: bool, fc: bool) -> V {
     if !req.is_supported {
         return V { matched: false, important: false, exception: false, filter: false };
     }
@@ -72,16 +77,21 @@ fn spec(rules: &[NetworkFilter], tags: &HashSet<String>, req: &Request) -> V {
     let tag_ok = |f: &NetworkFilter, t: &HashSet<String>| adblock::verif_hooks::filter_tag(f).map(|x| t.contains(x)).unwrap_or(true);
     let none = HashSet::new();
     let imp = live.iter().any(|f| category(f) == "important" && tag_ok(f, tags) && rule_matches(f, req));
-    let blk = live.iter().any(|f| {
-        (category(f) == "tagged" && tag_ok(f, tags) && rule_matches(f, req))
-            || (category(f) == "normal" && tag_ok(f, &none) && rule_matches(f, req))
-    });
+    let blk = !mr
+        && live.iter().any(|f| {
+            (category(f) == "tagged" && tag_ok(f, tags) && rule_matches(f, req))
+                || (category(f) == "normal" && tag_ok(f, &none) && rule_matches(f, req))
+        });
     let exc = live.iter().any(|f| category(f) == "exception" && tag_ok(f, tags) && rule_matches(f, req));
-    V { matched: imp || (blk && !exc), important: imp, exception: !imp && blk && exc, filter: imp || blk }
+    let excp = !imp && exc && (blk || mr || fc);
+    V { matched: !excp && (imp || blk || mr), important: imp, exception: excp, filter: imp || blk }
 }
 
 fn engine_verdict(e: &Engine, req: &Request) -> V {
-    let r = e.check_network_request(req);
+    engine_verdict_p(e, req, false, false)
+}
+fn engine_verdict_p(e: &Engine, req: &Request, mr: bool, fc: bool) -> V {
+    let r = if !mr && !fc { e.check_network_request(req) } else { e.check_network_request_subset(req, mr, fc) };
     V { matched: r.matched, important: r.important, exception: r.exception.is_some(), filter: r.filter.is_some() }
 }
 
@@ -131,8 +141,9 @@ fn replay(p: &std::path::Path) {
     let req = Request::new(rp["url"].as_str().unwrap(), rp["source"].as_str().unwrap_or(""), rp["type"].as_str().unwrap_or("script")).unwrap();
     let rules: Vec<NetworkFilter> = lines.iter().filter_map(|l| parse(l)).collect();
     let e = build(&lines, &tagrefs, false);
-    let got = engine_verdict(&e, &req);
-    let want = spec(&rules, &tags.iter().cloned().collect(), &req);
+    let (mr, fc) = (rp["matched_rule"].as_bool().unwrap_or(false), rp["force_check_exceptions"].as_bool().unwrap_or(false));
+    let got = engine_verdict_p(&e, &req, mr, fc);
+    let want = spec_p(&rules, &tags.iter().cloned().collect(), &req, mr, fc);
     println!("engine={:?}\nrule-by-rule={:?}", got, want);
     if got != want {
         println!("VIOLATION property=C01 replay={}", p.display());
@@ -233,7 +244,7 @@ fn main() {
     let n_lists = 250 * a.scale;
     for li in 0..n_lists {
         let nr = r.range(1, 12);
-        let mut lines: Vec<String> = (0..nr).map(|_| gen::rule(&mut r, li % 3 == 0)).collect();
+        let mut lines: Vec<String> = gen::rule_list(&mut r, nr, li % 3 == 0);
         if r.chance(1, 4) && !lines.is_empty() {
             let d = lines[r.below(lines.len())].clone();
             lines.push(d); // duplicate
@@ -281,10 +292,13 @@ fn main() {
             let ty = gen::request_type(&mut r);
             let Ok(req) = Request::new(&url, &src, ty) else { cs.stat("request_error"); continue };
             let matching: Vec<u64> = rules.iter().filter(|f| rule_matches(f, &req)).map(|f| f.id).collect();
-            let got = engine_verdict(&e, &req);
-            let want = spec(&rules, &tagset, &req);
+            // a third of the queries go through the subset entry point (another engine matched before /
+            // exceptions forced)
+            let (mr, fc) = if r.chance(1, 3) { (r.chance(1, 2), r.chance(1, 2)) } else { (false, false) };
+            let got = engine_verdict_p(&e, &req, mr, fc);
+            let want = spec_p(&rules, &tagset, &req, mr, fc);
             sm.oracle_evaluations += 1;
-            let desc = json!({"rules": lines, "tags": tags, "url": url, "source": src, "type": ty, "matching_ids": matching, "impl": vjson(&got)});
+            let desc = json!({"rules": lines, "tags": tags, "url": url, "source": src, "type": ty, "matched_rule": mr, "force_check_exceptions": fc, "matching_ids": matching, "impl": vjson(&got)});
             if got != want {
                 // is every lost rule in a known class?
                 let lost: Vec<&NetworkFilter> = rules.iter().filter(|f| rule_matches(f, &req) && !tg_ok(f, &req)).collect();
@@ -329,11 +343,12 @@ fn main() {
                 continue;
             }
             cs.stat(if matching.is_empty() { "verd_nomatch" } else { "verd_match" });
+            if mr || fc { cs.stat("verd_subset_query"); }
             let probes = clist(&req.get_tokens_for_match().copied().collect::<Vec<u64>>(), |x| cn(*x));
             cs.case(
                 format!(
-                    "let L := {} in let ids := {} in verdict_eqb (blocker_check (fun f => memN (rid f) ids) {} (with_tags seahash (blocker_new seahash L) {})) (Build_verdict {} {} {} {})",
-                    coq_rules(&dumps), clist(&matching, |x| cn(*x)), probes, tags_coq,
+                    "let L := {} in let ids := {} in verdict_eqb (blocker_check_p (fun f => memN (rid f) ids) {} {} {} (with_tags seahash (blocker_new seahash L) {})) (Build_verdict {} {} {} {})",
+                    coq_rules(&dumps), clist(&matching, |x| cn(*x)), probes, cbool(mr), cbool(fc), tags_coq,
                     cbool(got.matched), cbool(got.important), cbool(got.exception), cbool(got.filter)
                 ),
                 desc,
